@@ -46,6 +46,108 @@ def clenshaw_small(L):
     check('explicit-sum', approx(elem(out, i), want, 1e-7))
 
 
+@harness('C10', 'recurrence_abc/three-term-of-jacobi', variants=['n>=1', 'n=0'], fuc=['prysm.polynomials.jacobi.recurrence_abc'])
+def abc_three_term(v):
+    """the contract of recurrence_abc that jacobi_sum_clenshaw/any-length assumes of its callee, proved of the REAL body against the
+    spec function jacobi (DLMF 18.9): with (a_n, b_n, c_n) = recurrence_abc(n, alpha, beta),
+    P_{n+1}(x) = (a_n x + b_n) P_n(x) - c_n P_{n-1}(x) for every n >= 1, and P_1(x) = a_0 x + b_0 (alpha + beta in {0, -1} included)."""
+    a, b = Real('alpha'), Real('beta')
+    assume(And(a > -1, b > -1))
+    x = Real('x')
+    if v == 'n>=1':
+        n = Int('n', 1)
+        A, B, C = call(P + 'jacobi.recurrence_abc', n, a, b)
+        check('three-term', approx(JAC.at(n + 1, a, b, x), (A * x + B) * JAC.at(n, a, b, x) - C * JAC.at(n - 1, a, b, x), 1e-7))
+    else:
+        A, B, C = call(P + 'jacobi.recurrence_abc', 0, a, b)
+        check('first-order', approx(JAC.at(1, a, b, x), A * x + B, 1e-9))
+
+
+class ClenshawInv(Invariant):
+    """loop `for n in range(M-2, -1, -1)` of jacobi_sum_clenshaw, indexed by the next n.  With S(r) = sum_{k<r} s_k P_k (ghost prefix
+    sum, defined by S(0) = 0, S(r+1) = S(r) + s_r P_r) the rows n+1, n+2 of `alphas` already written satisfy
+        S(M+1) = S(n+1) + alphas[n+1] P_{n+1} - c_{n+1} alphas[n+2] P_n          (n >= 0)
+        S(M+1) = alphas[0]                                                          (n = -1, the loop's exit)
+    which is Clenshaw's identity (c_k: third coefficient of the three-term recurrence, as contracted in C07 recurrence_abc/dlmf).
+    a, b, c, _ are re-assigned before use in the body (dead at the loop head)."""
+    def __init__(self, S, P, Cc, tag):
+        self.S, self.P, self.Cc, self.tag = S, P, Cc, tag
+
+    def _rel(self, env, al, n):
+        M = env['M']
+        if n >= 0:
+            return eq(self.S(M + 1), self.S(n + 1) + elem(al, n + 1) * self.P(n + 1) - self.Cc(n + 1) * elem(al, n + 2) * self.P(n))
+        return eq(self.S(M + 1), elem(al, 0))
+
+    def state(self, env, n):
+        from pvc.symcore import ctx
+        M = env['M']
+        al = Array(ctx.fresh_name('alphas_' + self.tag), (M + 1,))
+        assume(self._rel(env, al, n))
+        return {'alphas': al, 'a': env.get('a'), 'b': env.get('b'), 'c': env.get('c'), '_': env.get('_')}
+
+    def holds(self, env, n):
+        yield 'clenshaw-identity', self._rel(env, env['alphas'], n)
+
+
+@harness('C10', 'jacobi_sum_clenshaw/any-length', variants=['scalar'], fuc=['prysm.polynomials.jacobi.jacobi_sum_clenshaw',
+                                                                            'prysm.polynomials.jacobi._initialize_alphas'])
+def clenshaw_any(kind):
+    """jacobi_sum_clenshaw(s, a, b, x) = sum_{k<len(s)} s_k P_k^(a,b)(x) for coefficient vectors of EVERY length (symbolic length,
+    symbolic coefficients, parameters and point): the descending loop is cut by Clenshaw's identity as its invariant (ClenshawInv),
+    the explicit sum is a ghost prefix-sum function unfolded at the indices the proof touches.  Modular on recurrence_abc: the callee
+    is replaced by opaque coefficient functions (a_k, b_k, c_k) about which only its contract is known -- P_0 = 1, P_1 = a_0 x + b_0,
+    P_{k+1} = (a_k x + b_k) P_k - c_k P_{k-1} for k >= 1 -- which is what C07 recurrence_abc/dlmf proves of the real body against
+    DLMF 18.9.2 and what the spec function `jacobi` is defined by."""
+    a, b = Real('alpha'), Real('beta')
+    assume(And(a > -1, b > -1))
+    L = Int('L', 1)
+    s = Array('s', (L,))
+    x = Real('x')
+    if MODE != 'symbolic':
+        out = call(P + 'jacobi.jacobi_sum_clenshaw', s, a, b, x)
+        want = 0
+        for k in range(L):
+            want = want + s[k] * JAC.at(k, a, b, x)
+        check('explicit-sum', approx(out, want, 1e-7))
+        return
+    import z3
+    from pvc import symcore as sc
+    fs = {}
+    for nm in ('ghost_clenshaw_prefix_sum', 'callee_recurrence_a', 'callee_recurrence_b', 'callee_recurrence_c', 'ghost_jacobi_at_x'):
+        fs[nm] = z3.Function(nm, z3.IntSort(), z3.RealSort())
+        sc.ATOM_NAMES.add(nm)
+    app = lambda nm, r: sc.SReal(fs[nm](z3.simplify(sc.lift(r).z)))
+    sc.ctx.axiom_log.add('ghost:clenshaw_prefix_sum S(0) = 0, S(r) = S(r-1) + s[r-1] P_{r-1}(x) (definition of the explicit sum, instantiated at use sites)')
+    sc.ctx.axiom_log.add('callee-contract:prysm.polynomials.jacobi.recurrence_abc = three-term recurrence coefficients of the spec function jacobi '
+                         '(C07 recurrence_abc/dlmf), instantiated at use sites')
+    assume(app('ghost_clenshaw_prefix_sum', 0) == 0)
+    assume(app('ghost_jacobi_at_x', 0) == 1)
+    assume(app('ghost_jacobi_at_x', 1) == app('callee_recurrence_a', 0) * x + app('callee_recurrence_b', 0))
+
+    def Pk(k):
+        """P_k(x) with the recurrence contract instantiated at k (k >= 2)"""
+        v = app('ghost_jacobi_at_x', k)
+        assume(Implies(k >= 2, v == (app('callee_recurrence_a', k - 1) * x + app('callee_recurrence_b', k - 1)) * app('ghost_jacobi_at_x', k - 1)
+                       - app('callee_recurrence_c', k - 1) * app('ghost_jacobi_at_x', k - 2)))
+        return v
+
+    def S(r, depth=2):
+        """S(r) with its definition instantiated at r and r - 1"""
+        v = app('ghost_clenshaw_prefix_sum', r)
+        assume(Implies(And(r >= 1, r <= L), v == app('ghost_clenshaw_prefix_sum', r - 1) + elem(s, r - 1) * Pk(r - 1)))
+        if depth > 1:
+            S(r - 1, depth - 1)
+        return v
+
+    def abc(n, al, be):
+        return app('callee_recurrence_a', n), app('callee_recurrence_b', n), app('callee_recurrence_c', n)
+    with stub('prysm.polynomials.jacobi', 'recurrence_abc', abc):
+        with cut_loops(P + 'jacobi.jacobi_sum_clenshaw', {0: ClenshawInv(S, Pk, lambda k: app('callee_recurrence_c', k), 'it')}) as f:
+            out = f(s, a, b, x)
+    check('explicit-sum', approx(out, S(L), 1e-7))
+
+
 @harness('C10', 'bounded/fast-sums-and-lstsq', kind='bounded',
          variants=['sum_of_2d_modes', 'jacobi_sum_clenshaw', 'clenshaw_qbfs', 'compute_z_Qcon', 'compute_z_Q2d', 'Q2d_nm_c_to_a_b', 'lstsq', 'fit_plane'],
          fuc=['prysm.polynomials.sum_of_2d_modes', 'prysm.polynomials.jacobi.jacobi_sum_clenshaw', 'prysm.polynomials.qpoly.clenshaw_qbfs', 'prysm.polynomials.qpoly.compute_z_zprime_Qcon',
